@@ -400,6 +400,13 @@ def _distinct(x, y):
         return r_.op == "sym" and r_.args[0] == "this"
     if (_is_vdata(rx) and _is_this(ry)) or (_is_vdata(ry) and _is_this(rx)):
         return True
+    # separation: two different std::vector objects own disjoint element blocks (same #vdata array, provably different vector addresses)
+    if _is_vdata(x) and _is_vdata(y) and x.args[0] is y.args[0]:
+        ax, ay = x.args[1], y.args[1]
+        ax = ax[0] if isinstance(ax, tuple) else ax
+        ay = ay[0] if isinstance(ay, tuple) else ay
+        if ax is not ay and _distinct(ax, ay):
+            return True
     # p + c1 vs p + c2
     if x.op == "+" and y.op == "+" and x.args[0] is y.args[0]:
         return _distinct(x.args[1], y.args[1])
